@@ -169,3 +169,43 @@ def run(ctx):
                 ctx.violation(f"StatThresholdAnomaliser(stat=np.{nm}): reported {impl}, flagged segments are {want} (changepoints {cp}, bounds {lo}, {hi})",
                               {"x": x.tolist(), "changepoints": cp, "stat": nm, "stat_lower": lo, "stat_upper": hi, "impl": [list(t) for t in impl]},
                               {"what": "flagged-segments", "stat": nm})
+
+    # ---- histories: fit, reconfigure the user's detector object, fit again: the second fit must clone the CURRENT configuration ----
+    for i in range(ctx.n(20, 150)):
+        n = rng.randint(30, 50)
+        x = np.asarray([rng.gauss(0, 1) for _ in range(n)])
+        for c in sorted(rng.sample(range(6, n - 6), 2)):
+            x[c:] += rng.choice([-7.0, 6.0, 9.0])
+        X = pd.DataFrame(x, columns=["v"])
+        kind = rng.choice(["PELT", "MovingWindow", "stub"])
+        if kind == "PELT":
+            inner, reconf = PELT(min_segment_length=2, penalty_scale=rng.choice([0.05, 1.0])), {"penalty_scale": rng.choice([50.0, 0.01])}
+        elif kind == "MovingWindow":
+            inner, reconf = MovingWindow(bandwidth=3, threshold_scale=rng.choice([0.1, 1.0])), {"threshold_scale": rng.choice([40.0, 0.01])}
+        else:
+            inner, reconf = StubCD([5, 12]), {"cpts": [rng.randint(2, 10), rng.randint(15, 25)]}
+        lo, hi = -1.5, 1.5
+        inp = {"inner": kind, "reconfigure": str(reconf), "x": x.tolist()}
+        try:
+            a = StatThresholdAnomaliser(inner, np.mean, lo, hi).fit(X)
+            first = a.predict(X)
+            inner.set_params(**reconf)
+            a.fit(X)
+            out = a.predict(X)
+            fresh = StatThresholdAnomaliser(inner.clone(), np.mean, lo, hi).fit(X).predict(X)
+            cp = [int(v) for v in inner.clone().fit(X).predict(X)["ilocs"]]
+        except Exception as ex:
+            ctx.violation(f"StatThresholdAnomaliser history raised {type(ex).__name__}: {str(ex)[:120]}", inp, {"what": "exception", "cls": type(ex).__name__, "history": True})
+            continue
+        got = [(int(l), int(r)) for l, r in zip(out["ilocs"].array.left, out["ilocs"].array.right)]
+        want = [(int(l), int(r)) for l, r in zip(fresh["ilocs"].array.left, fresh["ilocs"].array.right)]
+        bounds = [0] + cp + [n]
+        direct = [(s, e) for s, e in zip(bounds[:-1], bounds[1:]) if not (lo <= float(np.mean(x[s:e])) <= hi)]
+        ctx.case({"hist": i, "kind": kind, "x": x.tolist()}, nontrivial=len(want) > 0)
+        ctx.count("history", kind)
+        if got != want or got != direct:
+            ctx.violation(f"StatThresholdAnomaliser({kind}) refitted after the wrapped detector was reconfigured ({reconf}) reports {got}; the segments of the "
+                          f"current configuration's changepoints {cp} that are out of range are {direct}", dict(inp, got=got, fresh=want, changepoints=cp),
+                          {"what": "flagged-segments", "history": "refit-after-reconfigure", "inner": kind})
+        if getattr(inner, "_is_fitted", False):
+            ctx.violation("the wrapped detector passed by the user was fitted", inp, {"what": "user-detector-touched", "inner": kind})
